@@ -50,6 +50,7 @@ func (m *writerModel) convOfParam(l lval, root *ssa.Function, idx int) bool {
 }
 
 func rulePending(c *Ctx) {
+	c.checkWriterPipeline()
 	m := c.writerModel()
 	if m.typ == nil {
 		c.missing("midix.MIDIWriter")
